@@ -40,6 +40,8 @@ func runC10(c *core.Ctx) core.Meta {
 	pd := NewPkgInfo(c, driverPkg)
 	prov := core.NewLocalProv(c)
 
+	checkPhysicalLayout(c, pint, prov)
+
 	// ---------------- R10.1 lock discipline of the allocator ----------------
 	st1 := c.Rule("R10.1", "every access to a field of memoryAllocatorImpl happens with its embedded mutex held: exported methods lock before touching a field and keep the lock to every exit; unexported helpers that touch fields are reached only from call sites that hold the lock of the same allocator", 15)
 	type unl struct {
